@@ -708,8 +708,11 @@ def store_failure_histories(rng):
 
 
 def unwrap(value):
-    if type(value) is SandboxResult:
-        return object.__getattribute__(value, "value")
+    # (an execution nested in another one can leave the exception behind two proxies)
+    for _ in range(8):
+        if type(value) is not SandboxResult:
+            break
+        value = object.__getattribute__(value, "value")
     return value
 
 
